@@ -603,6 +603,7 @@ func execConc(c ccCase, x *verifkit.Ctx, lin, counters bool) (fail *verifkit.Fai
 	x.ClassIf(c.LoadStorm, "load-storm")
 	x.ClassIf(c.Pool, "entry-pool")
 	x.ClassIf(c.Doorkeeper, "doorkeeper")
+	x.ClassIf(c.Doorkeeper && c.Keys >= 600, "doorkeeper-churn(filters re-allocated)")
 	x.ClassIf(r.rangeN.Load() > 0, "range")
 	if lin && overlapWrites {
 		x.NonTrivial()
@@ -681,6 +682,41 @@ func genConc(forCounters bool) func(t *rapid.T) ccCase {
 				c.Progs = append(c.Progs, rapid.SliceOfN(ls, 100, 300).Draw(t, "prog"))
 			}
 			c.LoadStorm = true
+		} else if !forCounters && rapid.IntRange(0, 5).Draw(t, "dkGrowth") == 0 {
+			// doorkeeper churn: so many distinct keys that every shard's doorkeeper filter is re-allocated
+			// (it grows with the shard's map) and aged several times while earlier keys are still resident;
+			// then Deletes, re-Sets and reads of those earlier keys. Each goroutine first stores its own
+			// slice of the keys twice (the doorkeeper drops a key's first Set), then works on all keys.
+			c.Doorkeeper = true
+			c.MaxSize = 8192
+			c.Keys = rapid.IntRange(600, 2400).Draw(t, "dkKeys")
+			G = rapid.IntRange(2, 4).Draw(t, "dkGoroutines")
+			tail := rapid.Custom(func(t *rapid.T) ccOp {
+				// mostly early keys: stored before most of the filter re-allocations
+				k := rapid.IntRange(0, c.Keys-1).Draw(t, "k")
+				if rapid.IntRange(0, 3).Draw(t, "early") > 0 {
+					k = rapid.IntRange(0, c.Keys/8).Draw(t, "ek")
+				}
+				switch op := rapid.IntRange(0, 9).Draw(t, "op"); {
+				case op < 4:
+					if c.Loading && op < 2 {
+						return ccOp{Op: "lget", K: k}
+					}
+					return ccOp{Op: "get", K: k}
+				case op < 7:
+					return ccOp{Op: "del", K: k}
+				default:
+					return ccOp{Op: "set", K: k}
+				}
+			})
+			for g := 0; g < G; g++ {
+				var prog []ccOp
+				for k := g; k < c.Keys; k += G {
+					prog = append(prog, ccOp{Op: "set", K: k}, ccOp{Op: "set", K: k})
+				}
+				prog = append(prog, rapid.SliceOfN(tail, 50, 300).Draw(t, "dkTail")...)
+				c.Progs = append(c.Progs, prog)
+			}
 		} else if !forCounters && rapid.IntRange(0, 3).Draw(t, "readHeavy") == 0 {
 			// read-heavy programs under eviction pressure: many hits/loads racing eviction and entry reuse
 			c.MaxSize = rapid.SampledFrom([]int{8, 64}).Draw(t, "rhMaxsize")
